@@ -102,7 +102,14 @@ func genTransport(t *rapid.T, c *Case) {
 			it.Size = rapid.SampledFrom([]int{16, 64, 200, 5000}).Draw(t, "size")
 			it.Salt = rapid.Uint32().Draw(t, "salt")
 			it.Method = rapid.IntRange(0, 3).Draw(t, "method")
-		case k <= 8:
+		case k == 7:
+			// a call whose connection is cut (the server stays reachable) while its handler runs
+			it.Kind = "cutcall"
+			it.Form = rapid.SampledFrom([]string{"call", "go", "ctx", "roundtrip", "ccall", "cgo"}).Draw(t, "form")
+			it.Size = rapid.SampledFrom([]int{16, 64, 200}).Draw(t, "size")
+			it.Salt = rapid.Uint32().Draw(t, "salt")
+			it.Method = rapid.IntRange(0, 3).Draw(t, "method")
+		case k == 8:
 			it.Kind = "kill"
 		default:
 			it.Kind = "restart"
@@ -490,7 +497,7 @@ func runTransport(c Case) kit.Outcome {
 			return kit.Outcome{Invalid: true}
 		}
 		switch it.Kind {
-		case "call":
+		case "call", "cutcall":
 			if it.Size < kit.HeaderLen || it.Size > 1<<20 || it.Method < 0 || it.Method > 3 {
 				return kit.Outcome{Invalid: true}
 			}
@@ -505,6 +512,7 @@ func runTransport(c Case) kit.Outcome {
 		}
 	}
 	env := kit.NewEnv()
+	env.GateWait = 3 * time.Second
 	net := kit.NewNet()
 	m := kit.Modes{Enc: c.Enc, SrvPipelining: c.SrvPipelining, SrvDirect: c.SrvDirect, Link: "bytes"}
 	opts := m.Options(net)
@@ -555,7 +563,7 @@ func runTransport(c Case) kit.Outcome {
 		form string
 	}
 	var recs []*rec
-	kills := 0
+	kills, cuts := 0, 0
 	for i, it := range c.Items {
 		switch it.Kind {
 		case "kill":
@@ -569,9 +577,14 @@ func runTransport(c Case) kit.Outcome {
 					return kit.Undecided("server %d did not restart", it.Addr)
 				}
 			}
-		case "call":
+		case "call", "cutcall":
+			cut := it.Kind == "cutcall" && up[it.Addr]
 			r := &rec{id: uint64(i + 1), form: it.Form}
-			r.args = kit.MakePayload(r.id, kit.DirEcho, it.Salt, it.Size)
+			dir := byte(kit.DirEcho)
+			if cut {
+				dir = kit.DirGate
+			}
+			r.args = kit.MakePayload(r.id, dir, it.Salt, it.Size)
 			var reply []byte
 			method := kit.Methods[it.Method]
 			addr := addrs[it.Addr]
@@ -598,6 +611,15 @@ func runTransport(c Case) kit.Outcome {
 					resc <- call.Error
 				}
 			}()
+			if cut {
+				// the link is cut while the handler runs; the server stays reachable
+				if env.WaitStartedIDs([]uint64{r.id}, 2*time.Second) {
+					net.SeverServerSide(addr, nil)
+					cuts++
+				}
+				time.Sleep(300 * time.Microsecond)
+				env.Open(r.id)
+			}
 			select {
 			case r.err = <-resc:
 			case <-time.After(bound):
@@ -640,6 +662,10 @@ func runTransport(c Case) kit.Outcome {
 	if kills > 0 && okCalls > 0 && failed > 0 {
 		out.Nontrivial = true
 		out.Classes = append(out.Classes, "kill-with-failures")
+	}
+	if cuts > 0 {
+		out.Nontrivial = true
+		out.Classes = append(out.Classes, "link-cut-while-executing")
 	}
 	return out
 }
